@@ -29,6 +29,9 @@ def sum_of_lengths(c):
         (is_len(t[2]) or is_len(t[3]))
 
 
+_PROG = []
+
+
 def range_item_bound(src, depth=0, env=None):
     """upper bound of the elements of an iterator chain over a Range (rev / iter / into_iter peeled)"""
     while isinstance(src, tuple) and src and (src[0] == "iter" or (src[0] == "call" and src[1].rsplit("::", 1)[-1] in ("rev", "into_iter", "iter") and src[2])):
@@ -70,6 +73,15 @@ def upper_bound(t, depth=0, env=None):
         return t[2]
     if t[0] == "const" and isinstance(t[2], str) and t[2].endswith("::BITS"):
         return 128
+    if t[0] in ("some", "ok"):
+        return upper_bound(t[1], depth + 1, env)
+    if t[0] == "call" and t[1].rsplit("::", 1)[-1] in ("ilog2", "checked_ilog2") and len(t[2]) == 1:
+        ty = t[4] if isinstance(t[4], str) else ""
+        if ty not in ("u8", "u16", "u32", "u64", "u128", "usize") and _PROG:
+            ci_, term_ = call_info(_PROG[0], t)
+            ty = (term_ or {}).get("arg_tys", [""])[0].lstrip("&") if term_ else ""
+        bits = {"u8": 8, "u16": 16, "u32": 32, "u64": 64, "u128": 128, "usize": 64}.get(ty, 128)
+        return bits - 1          # floor(log2 n) of an n-bit unsigned integer
     if t[0] == "cast":
         return upper_bound(t[3], depth + 1, env)
     if t[0] == "bin" and t[1] in ("Sub", "Div", "Rem", "Shr", "BitAnd"):
@@ -349,6 +361,7 @@ def run(ctx):
     ctx.assumptions.append("std APIs not in sa/panics.py's deny-list are total; non-std dependency functions are total "
                            "unless listed; the caller's own secret state is honestly generated (rows say so)")
     P = ctx.prog
+    _PROG[:] = [P]
     inv = panics.inventory(P)
     groups = {}
     auto = 0
